@@ -11,6 +11,7 @@ import Mathlib.Tactic.FieldSimp
 import Mathlib.Tactic.Positivity
 import Mathlib.Algebra.Order.Field.Rat
 import Mathlib.Algebra.Order.Floor.Ring
+import Mathlib.Data.Rat.Floor
 
 namespace Qmc
 open RS
@@ -25,10 +26,10 @@ theorem next_cons (rs : RS) (v : Nat) (s : List Nat) (h : rs.script = v :: s) :
   unfold RS.next; rw [h]
 
 theorem noteMargin_script (rs : RS) (m : Rat) : (rs.noteMargin m).script = rs.script := by
-  unfold noteMargin; dsimp only; split <;> rfl
+  unfold noteMargin; dsimp only; split <;> split <;> rfl
 
 theorem noteMargin_panicked (rs : RS) (m : Rat) : (rs.noteMargin m).panicked = rs.panicked := by
-  unfold noteMargin; dsimp only; split <;> rfl
+  unfold noteMargin; dsimp only; split <;> split <;> rfl
 
 /-- the decision of `gen_bool(p)` for `0 ≤ p < 1` is `word < ⌊p·2^64⌋` -/
 theorem genBool_true_iff (rs : RS) (p : Rat) (v : Nat) (s : List Nat) (h : rs.script = v :: s)
@@ -57,13 +58,13 @@ theorem genBool_true_pos (rs : RS) (p : Rat) (h : (rs.genBool p).1 = true) : 0 <
         omega
       have hpos : (0 : Rat) < p * ((two64 : Nat) : Rat) := by
         by_contra hc
-        push_neg at hc
-        have : (p * ((two64 : Nat) : Rat)).floor ≤ 0 := by
-          have := Int.floor_le_floor hc
-          simpa using this
+        rw [not_lt] at hc
+        have h3 : ⌊p * ((two64 : Nat) : Rat)⌋ ≤ ⌊(0 : Rat)⌋ := Int.floor_le_floor hc
+        rw [Int.floor_zero] at h3
+        have h4 : (p * ((two64 : Nat) : Rat)).floor = ⌊p * ((two64 : Nat) : Rat)⌋ := rfl
         omega
       by_contra hc
-      push_neg at hc
+      rw [not_lt] at hc
       have := mul_nonpos_of_nonpos_of_nonneg hc (le_of_lt two64_pos)
       linarith
 
@@ -97,6 +98,16 @@ theorem clip1_le_one (x : Rat) : clip1 x ≤ 1 := by
 
 theorem clip1_pos {x : Rat} (h : 0 < x) : 0 < clip1 x := by
   unfold clip1; split <;> linarith
+
+theorem clipProb_eq {num den : Rat} (hd : 0 < den) : clipProb num den = clip1 (num / den) := by
+  unfold clipProb clip1
+  have : num > den ↔ num / den > 1 := by
+    constructor
+    · intro h; exact (one_lt_div hd).mpr h
+    · intro h; exact (one_lt_div hd).mp h
+  by_cases h : num > den
+  · rw [if_pos h, if_pos (this.mp h)]
+  · rw [if_neg h, if_neg (fun hc => h (this.mpr hc))]
 
 /-- `min 1 x / min 1 (1/x) = x` -/
 theorem clip1_ratio {x : Rat} (h : 0 < x) : clip1 x / clip1 (1 / x) = x := by
@@ -141,34 +152,35 @@ theorem genClipped_true_pos (rs : RS) (num den : Rat) (hd : 0 ≤ den)
       have hp := genBool_true_pos rs _ h
       have hdpos : 0 < den := lt_of_le_of_ne hd (Ne.symm hz)
       by_contra hc
-      push_neg at hc
+      rw [not_lt] at hc
       have := div_nonpos_of_nonpos_of_nonneg hc hd
       linarith
 
 /-! ### Metropolis ratio -/
 
 theorem natSub_cast {L n : Nat} (h : n ≤ L) : ((L - n : Nat) : Rat) = (L : Rat) - (n : Rat) := by
-  exact_mod_cast Nat.cast_sub h
+  exact Nat.cast_sub h
 
-theorem accRemM_succ (β : Rat) (Nb : Nat) (w : Rat) (L n : Nat) (h : n < L) :
+theorem accRemM_succ (β : Rat) (Nb : Nat) (w : Rat) (L n : Nat) (h : n < L)
+    (hpos : 0 < β * (Nb : Rat) * w) :
     accRemM β Nb w L (n + 1) = clip1 (1 / (β * (Nb : Rat) * w / ((L - n : Nat) : Rat))) := by
   unfold accRemM
   have h1 : ((L - (n + 1) : Nat) : Rat) + 1 = ((L - n : Nat) : Rat) := by
     rw [natSub_cast (by omega : n + 1 ≤ L), natSub_cast (le_of_lt h)]; push_cast; ring
-  rw [h1, one_div_div]
+  rw [h1, clipProb_eq hpos, one_div_div]
 
 theorem metropolis_ratio_aux (β : Rat) (Nb : Nat) (w : Rat) (L n : Nat)
     (hβ : 0 < β) (hNb : 0 < Nb) (hw : 0 < w) (hn : n < L) :
     pInsertM β Nb w L n / pRemoveM β Nb w L (n + 1) = β * w / ((L : Rat) - (n : Rat)) := by
   unfold pInsertM pRemoveM
-  rw [accRemM_succ β Nb w L n hn]
-  unfold accInsM
   have hNbq : (0 : Rat) < (Nb : Rat) := by exact_mod_cast hNb
+  rw [accRemM_succ β Nb w L n hn (by positivity)]
+  unfold accInsM
   have hd : (0 : Rat) < ((L - n : Nat) : Rat) := by
     have : 0 < L - n := by omega
     exact_mod_cast this
   have hx : 0 < β * (Nb : Rat) * w / ((L - n : Nat) : Rat) := by positivity
-  rw [mul_div_assoc, clip1_ratio hx, natSub_cast (le_of_lt hn)]
+  rw [clipProb_eq hd, mul_div_assoc, clip1_ratio hx, natSub_cast (le_of_lt hn)]
   rw [natSub_cast (le_of_lt hn)] at hd
   field_simp
 
@@ -178,7 +190,7 @@ def cnt (o : Option Op) : Nat := if o.isSome then 1 else 0
 
 theorem countOps_cons (o : Option Op) (t : Slots) : countOps (o :: t) = cnt o + countOps t := by
   unfold countOps cnt
-  cases o <;> simp [List.filter_cons, Nat.add_comm]
+  cases o <;> simp [Nat.add_comm]
 
 theorem countOps_nil : countOps ([] : Slots) = 0 := rfl
 
@@ -217,6 +229,7 @@ theorem sweepAux_append (f) : ∀ (pre post : Slots) st n rs,
     rw [List.cons_append, sweepAux_cons, sweepAux_cons]
     simp only
     rw [sweepAux_append f t post]
+    simp only [List.cons_append]
 
 /-- count bookkeeping: if `n` counts the operators of the part still to be visited plus `e` others, the
 count after the sweep counts the new content plus `e` -/
